@@ -76,6 +76,25 @@ def append(cx, l: SList, x) -> None:
         l.items.append(x)
         return
     old_len = l.length
+    if "arrays" in l.ghost:
+        # a heap list adopts the object: its fields move into the list's arrays at the new index
+        if not isinstance(x, SObj):
+            raise Unsupported("append of a non-object to a heap list")
+        ol = to_term_int(old_len)
+        extra = {}
+        proxy = FieldProxy(l, ol, extra)
+        old_fields = x.fields
+        for f, v in (old_fields.items() if not isinstance(old_fields, FieldProxy) else old_fields.items()):
+            if f in l.ghost["arrays"]:
+                proxy[f] = v
+            else:
+                extra[f] = v
+        x.fields = proxy            # type: ignore[assignment]
+        x.elem_of = (l, ol)         # type: ignore[attr-defined]
+        if getattr(x, "ident", None) is not None:
+            cx.assume(l.ghost["id_fn"](ol) == x.ident)
+        l.length = int_binop("+", old_len, 1)
+        return
     if "rec_fields" in l.ghost:
         if not isinstance(x, SObj):
             raise Unsupported("append of a non-record to a record list")
@@ -144,3 +163,128 @@ def to_abstract_terms(cx, l: SList, kind: str) -> SList:
     l.ghost["elem_term"] = (kind, fn)
     l.elem = lambda j, l=l: wrap(l.ghost["elem_term"][0], l.ghost["elem_term"][1](to_term_int(j)))
     return l
+
+
+# ---------------------------------------------------------------------------------------------------
+# lists of heap objects whose fields are kept in per-list arrays (element j's field f is  arr_f[j])
+
+NONE_REF = -7
+
+
+class FieldProxy:
+    """dict-like view of the fields of element `idx` of a heap list"""
+
+    def __init__(self, owner: SList, idx, extra: dict):
+        self.owner = owner
+        self.idx = idx
+        self.extra = extra
+
+    def _arr(self):
+        return self.owner.ghost["arrays"]
+
+    def __contains__(self, k):
+        return k in self._arr() or k in self.extra
+
+    def __getitem__(self, k):
+        if k in self.extra:
+            return self.extra[k]
+        kind, arr = self._arr()[k]
+        t = z3.Select(arr, self.idx)
+        if kind == "ref":
+            return SRef(t)
+        if kind == "optint":
+            return SOptInt(t, z3.Select(self._arr()[k + "@none"][1], self.idx))
+        return wrap(kind, t)
+
+    def __setitem__(self, k, v):
+        if k not in self._arr():
+            self.extra[k] = v
+            return
+        kind, arr = self._arr()[k]
+        if kind == "ref":
+            if v is None:
+                t = z3.IntVal(NONE_REF)
+            elif isinstance(v, SRef):
+                t = v.term
+            elif getattr(v, "ident", None) is not None:
+                t = v.ident
+            else:
+                raise Unsupported("storing an object without identity into a heap list element")
+            self._arr()[k] = (kind, z3.Store(arr, self.idx, t))
+        elif kind == "optint":
+            nk = k + "@none"
+            if v is None:
+                self._arr()[nk] = ("bool", z3.Store(self._arr()[nk][1], self.idx, z3.BoolVal(True)))
+            else:
+                self._arr()[nk] = ("bool", z3.Store(self._arr()[nk][1], self.idx, z3.BoolVal(False)))
+                self._arr()[k] = (kind, z3.Store(arr, self.idx, to_term_int(v)))
+        else:
+            self._arr()[k] = (kind, z3.Store(arr, self.idx, unwrap(kind, v)))
+
+    def get(self, k, d=None):
+        return self[k] if k in self else d
+
+    def items(self):
+        return [(k, self[k]) for k in list(self._arr()) if not k.endswith("@none")] + list(self.extra.items())
+
+    def values(self):
+        return [v for _, v in self.items()]
+
+    def update(self, d):
+        for k, v in d.items():
+            self[k] = v
+
+
+class SRef:
+    """a reference read from a heap array: only its identity term is known"""
+
+    def __init__(self, term):
+        self.term = term
+        self.ident = term
+
+
+class SOptInt:
+    def __init__(self, term, isnone):
+        self.term = term
+        self.isnone = isnone
+
+
+def heap_list(cx, base: str, length, cls: str, fields: dict, fresh: bool = False, ident_fn=None) -> SList:
+    """abstract list of distinct heap objects of class `cls`; fields: name -> 'int' | 'bool' | 'ref' | 'optint'"""
+    arrays = {}
+    for f, kind in fields.items():
+        sort = z3.BoolSort() if kind == "bool" else z3.IntSort()
+        arrays[f] = (kind, z3.Array(cx._name(f"{base}.{f}"), z3.IntSort(), sort))
+        if kind == "optint":
+            arrays[f + "@none"] = ("bool", z3.Array(cx._name(f"{base}.{f}@none"), z3.IntSort(), z3.BoolSort()))
+    idf = ident_fn or cx.func(base + "_id", z3.IntSort(), z3.IntSort())
+    l = SList(None, length=length, fresh=fresh, label=base)
+    l.ghost["arrays"] = arrays
+    l.ghost["id_fn"] = idf
+    l.ghost["elem_cls"] = cls
+
+    def elem(j, l=l):
+        jt = to_term_int(j)
+        o = SObj(cls, {}, fresh=fresh, label=f"{base}[{jt}]")
+        o.fields = FieldProxy(l, jt, {})          # type: ignore[assignment]
+        o.ident = idf(jt)
+        o.elem_of = (l, jt)                       # type: ignore[attr-defined]
+        return o
+
+    l.elem = elem
+    return l
+
+
+def heap_slice(cx, src: SList, lo, hi) -> SList:
+    """src[lo:hi] of a heap list: a NEW list object that lists the SAME element objects"""
+    n = to_term_int(list_len(src))
+    a = to_term_int(lo) if lo is not None else z3.IntVal(0)
+    b = to_term_int(hi) if hi is not None else n
+    a = z3.If(a < 0, z3.If(n + a < 0, 0, n + a), z3.If(a > n, n, a))
+    b = z3.If(b < 0, z3.If(n + b < 0, 0, n + b), z3.If(b > n, n, b))
+    length = SInt(z3.If(b > a, b - a, 0), 0, None)
+    out = SList(None, length=length, fresh=True, label=src.label + "[slice]")
+    out.ghost["slice_of"] = (src, a)
+    out.ghost["arrays_view"] = src
+    out.elem = lambda j, src=src, a=a: src.elem(SInt(a + to_term_int(j)))
+    return out
